@@ -26,7 +26,7 @@ Proof.
   - exists []. reflexivity.
   - unfold ucmd; simpl. apply length_updd.
   - intros x Hx. destruct (Nat.eq_dec c x) as [->|Hne].
-    + rewrite gcmd_ucmd_same. apply G.
+    + rewrite gcmd_ucmd_same. apply (proj1 (G _)).
     + rewrite gcmd_ucmd_other by exact Hne. reflexivity.
 Qed.
 Lemma Rmeta_add_cmd c H : Rmeta H (mkH (chans H) (tfl H) (cmds H ++ [c]) (woken H) (xready H) (aborted H) (log H) (hout H)).
@@ -44,8 +44,8 @@ Proof.
 Qed.
 
 Definition frame_meta := frame_all Rmeta Rmeta_refl Rmeta_trans Rmeta_ucmd
-  (fun c f H => Rmeta_same_cmds H (uch c f H) eq_refl eq_refl)
-  (fun u f H => Rmeta_same_cmds H (utf u f H) eq_refl eq_refl)
+  (fun c f H _ => Rmeta_same_cmds H (uch c f H) eq_refl eq_refl)
+  (fun u f H _ => Rmeta_same_cmds H (utf u f H) eq_refl eq_refl)
   (fun n H => Rmeta_same_cmds H (note n H) eq_refl eq_refl)
   (fun g H => Rmeta_same_cmds H (set_woken g H) eq_refl eq_refl)
   (fun q H => Rmeta_same_cmds H (push_xready q H) eq_refl eq_refl)
